@@ -48,10 +48,44 @@ const (
 	c13Canon = "canon.verif.test."
 )
 
+// c13Owners: the owner names a TLSA record can carry (index = the `owner` field of the record
+// token; 0 = the name the RRset of the MX is published under). A TLSA RRset reached through a CNAME
+// (`_25._tcp.mx CNAME _dane.example`) arrives with the alias target as owner; AuthLookupTLSA
+// takes every TLSA RR of the answer section whatever its owner. The owner name is not an input of
+// the DANE decision (C13_owner_relabel_invariant): names are chosen so that code deriving a
+// reference identifier from it ends up with nothing, with a name the wrong-name leaf is valid
+// for, or with the canonical name.
+var c13Owners = []string{
+	"_25._tcp." + c13MXFQ,
+	"_25._tcp." + c13Canon,
+	"_dane.verif.test.",           // shared RRset behind a CNAME; not of the _port._proto.host form
+	"tlsa.verif.test.",            // no underscore label at all
+	"_25._tcp.other.verif.test.",  // base domain: a name the wrong-name leaf is issued for
+	"_tlsa.dane.verif.test.",      // one underscore label; rest: a name the wrong-name leaf is issued for
+	"_25._TCP.MX.Verif.Test.",     // the usual name in another spelling
+	"mx.verif.test.",              // the host itself
+	"_25._tcp._tcp.verif.test.",   // more underscore labels than expected
+	".",                           // the root
+	"_25._tcp.mx.verif.test",      // not fully qualified (in-memory records only)
+	"",                            // empty (in-memory records only)
+}
+
+// owners that survive a trip over the wire unchanged
+const c13WireOwners = 10
+
+func c13OwnerIndex(name string) int {
+	for i, o := range c13Owners {
+		if o == name {
+			return i
+		}
+	}
+	return 99
+}
+
 // ---------------------------------------------------------------- certificates
 
 type c13PKI struct {
-	root, inter, leaf, expLeaf, wrongLeaf, selfCA, foreign *x509.Certificate
+	root, inter, leaf, expLeaf, wrongLeaf, canonLeaf, selfCA, foreign *x509.Certificate
 }
 
 func c13Key(t *testing.T) *ecdsa.PrivateKey {
@@ -115,7 +149,12 @@ func c13MakePKI(t *testing.T) *c13PKI {
 	p.foreign = c13Sign(t, c13CA("verif foreign root", now), nil, foreignK, nil)
 	p.leaf = c13Sign(t, c13Leaf("leaf", c13MX, now.Add(-year), now.Add(10*year)), p.inter, c13Key(t), interK)
 	p.expLeaf = c13Sign(t, c13Leaf("expired leaf", c13MX, now.Add(-2*year), now.Add(-year)), p.inter, c13Key(t), interK)
-	p.wrongLeaf = c13Sign(t, c13Leaf("wrong-name leaf", "other.verif.test", now.Add(-year), now.Add(10*year)), p.inter, c13Key(t), interK)
+	wrong := c13Leaf("wrong-name leaf", "other.verif.test", now.Add(-year), now.Add(10*year))
+	// valid for the names around the MX name, not for it
+	wrong.DNSNames = append(wrong.DNSNames, "dane.verif.test", "verif.test", "*.mx.verif.test", "tcp.verif.test", "test")
+	p.wrongLeaf = c13Sign(t, wrong, p.inter, c13Key(t), interK)
+	// issued for the canonical name an aliased MX name points to — not for the MX host name
+	p.canonLeaf = c13Sign(t, c13Leaf("canonical-name leaf", strings.TrimSuffix(c13Canon, "."), now.Add(-year), now.Add(10*year)), p.inter, c13Key(t), interK)
 	self := c13CA("self-signed ca leaf", now)
 	self.DNSNames = []string{c13MX}
 	self.ExtKeyUsage = []x509.ExtKeyUsage{x509.ExtKeyUsageServerAuth}
@@ -138,7 +177,7 @@ type c13Chain struct {
 }
 
 // chain kinds; the first five are the property's, the others widen the space
-var c13ChainKinds = []string{"L", "LI", "LIR", "X", "W", "S", "F", "LR", "E"}
+var c13ChainKinds = []string{"L", "LI", "LIR", "X", "W", "S", "F", "LR", "C", "E"}
 
 func c13MakeChains(t *testing.T, p *c13PKI) map[string]*c13Chain {
 	mk := func(kind string, stated bool, certs []*x509.Certificate, ca, ok []bool) *c13Chain {
@@ -157,6 +196,9 @@ func c13MakeChains(t *testing.T, p *c13PKI) map[string]*c13Chain {
 		mk("F", f, []*x509.Certificate{p.leaf, p.foreign}, []bool{f, tr}, []bool{f, f}),
 		// the root is presented but the intermediate is missing: no path
 		mk("LR", f, []*x509.Certificate{p.leaf, p.root}, []bool{f, tr}, []bool{f, f}),
+		// the leaf is issued for the canonical name of an aliased MX, and chains to the anchors:
+		// not valid for the MX host name
+		mk("C", f, []*x509.Certificate{p.canonLeaf, p.inter, p.root}, []bool{f, tr, tr}, []bool{f, f, f}),
 		// no certificate at all (what ConnectionState holds without TLS)
 		mk("E", f, nil, nil, nil),
 	}
@@ -273,6 +315,7 @@ type c13Rec struct {
 	usage, sel, mt uint8
 	target         byte
 	dsel, dmt      uint8
+	owner          uint8 // index into c13Owners
 }
 
 func (r c13Rec) kind() string { return fmt.Sprintf("%c%d%d", r.target, r.dsel, r.dmt) }
@@ -329,10 +372,10 @@ func (w *c13World) data(r c13Rec, ch *c13Chain) []byte {
 	return c13Hash(c13Select(c, r.dsel%2), r.dmt%3)
 }
 
-func (w *c13World) tlsa(r c13Rec, ch *c13Chain, owner string) dns.TLSA {
+func (w *c13World) tlsa(r c13Rec, ch *c13Chain) dns.TLSA {
 	return dns.TLSA{
 		Hdr: miekgdns.RR_Header{
-			Name:   owner,
+			Name:   c13Owners[r.owner],
 			Class:  miekgdns.ClassINET,
 			Rrtype: miekgdns.TypeTLSA,
 			Ttl:    9999,
@@ -370,7 +413,7 @@ func c13Tag(sel, mt uint8, data []byte, ch *c13Chain) int {
 }
 
 func (w *c13World) recToken(r c13Rec, ch *c13Chain) string {
-	return fmt.Sprintf("%d.%d.%d.%s.%d", r.usage, r.sel, r.mt, r.kind(), c13Tag(r.sel, r.mt, w.data(r, ch), ch))
+	return fmt.Sprintf("%d.%d.%d.%s.%d.%d", r.usage, r.sel, r.mt, r.kind(), c13Tag(r.sel, r.mt, w.data(r, ch), ch), r.owner)
 }
 
 func c13ParseRec(tok string) (c13Rec, error) {
@@ -386,7 +429,30 @@ func c13ParseRec(tok string) (c13Rec, error) {
 		}
 		v[i] = uint8(x)
 	}
-	return c13Rec{usage: v[0], sel: v[1], mt: v[2], target: p[3][0], dsel: p[3][1] - '0', dmt: p[3][2] - '0'}, nil
+	rec := c13Rec{usage: v[0], sel: v[1], mt: v[2], target: p[3][0], dsel: p[3][1] - '0', dmt: p[3][2] - '0'}
+	// usage.selector.mtype.kind.tag.owner (op tokens) or usage.selector.mtype.kind.o<owner> (zone codes)
+	otok := ""
+	if len(p) >= 6 {
+		otok = p[5]
+	} else if len(p) == 5 && strings.HasPrefix(p[4], "o") {
+		otok = p[4][1:]
+	}
+	if otok != "" {
+		x, err := strconv.ParseUint(otok, 10, 8)
+		if err != nil || int(x) >= len(c13Owners) {
+			return c13Rec{}, fmt.Errorf("bad owner in record token %q", tok)
+		}
+		rec.owner = uint8(x)
+	}
+	return rec, nil
+}
+
+// an owner name for a generated record: mostly the usual one
+func c13RandOwner(r *vh.Rng, n int) uint8 {
+	if r.Chance(60) {
+		return 0
+	}
+	return uint8(r.Intn(n))
 }
 
 var (
@@ -425,6 +491,7 @@ func c13RandRec(r *vh.Rng) c13Rec {
 	if r.Chance(12) { // data derived with other parameters than the record declares
 		rec.dsel, rec.dmt = uint8(r.Intn(2)), uint8(r.Intn(3))
 	}
+	rec.owner = c13RandOwner(r, len(c13Owners))
 	return rec
 }
 
@@ -555,7 +622,7 @@ func (w *c13World) verifyCase(out *vh.Out, recs []c13Rec, ck string, hs bool, st
 	var rrs []dns.TLSA
 	for _, r := range recs {
 		toks = append(toks, w.recToken(r, ch))
-		rrs = append(rrs, w.tlsa(r, ch, "_25._tcp."+c13MXFQ))
+		rrs = append(rrs, w.tlsa(r, ch))
 	}
 	op := fmt.Sprintf("C13 verify z=%s %s %s | %s", ck, c13b(hs), ch.token(), strings.Join(toks, " "))
 	op = strings.TrimRight(op, " ")
@@ -604,6 +671,7 @@ func (w *c13World) verifyCase(out *vh.Out, recs []c13Rec, ck string, hs bool, st
 		out.Stat("verify/path:" + tr.path(hs))
 		out.Stat("verify/outcome:" + obs)
 		for _, r := range recs {
+			out.Stat(fmt.Sprintf("verify/rec-owner:%d", r.owner))
 			switch {
 			case c13Usable(r.usage, r.sel, r.mt) && r.usage == 3:
 				out.Stat("verify/rec:usable-ee")
@@ -695,6 +763,24 @@ func TestVerifC13Verify(t *testing.T) {
 	}
 	out.Note(fmt.Sprintf("verify: exhaustive sizes 0-1 over %d record types x %d chains x handshake", len(types), len(c13ChainKinds)))
 
+	// (1b) the owner name of the record: every usable record type under every other owner name
+	// (CNAME'd RRsets, odd names), all chains — the leaf issued for another name that chains to
+	// the matched anchor (W, C) among them
+	cnt1b := 0
+	for o := 1; o < len(c13Owners); o++ {
+		for _, ck := range c13ChainKinds {
+			for _, a := range types {
+				if !c13Usable(a.usage, a.sel, a.mt) {
+					continue
+				}
+				a.owner = uint8(o)
+				w.verifyCase(out, []c13Rec{a}, ck, true, true)
+				cnt1b++
+			}
+		}
+	}
+	out.Note(fmt.Sprintf("verify: usable record types x %d other owner names x %d chains: %d cases", len(c13Owners)-1, len(c13ChainKinds), cnt1b))
+
 	// (2) every multiset of size 2 over the stated record types, completed handshake (without a
 	// handshake the verdict only depends on emptiness: sampled below): quick on the full chain,
 	// thorough on all nine chains
@@ -708,6 +794,13 @@ func TestVerifC13Verify(t *testing.T) {
 			pair := []c13Rec{types[i], types[j]}
 			if rng.Bool() {
 				pair[0], pair[1] = pair[1], pair[0]
+			}
+			if rng.Chance(25) { // the RRset lives under another name, or the two records under two names
+				pair[0].owner = uint8(1 + rng.Intn(len(c13Owners)-1))
+				pair[1].owner = pair[0].owner
+				if rng.Chance(30) {
+					pair[1].owner = uint8(rng.Intn(len(c13Owners)))
+				}
 			}
 			for _, ck := range size2 {
 				w.verifyCase(out, pair, ck, true, true)
@@ -765,6 +858,12 @@ func TestVerifC13Verify(t *testing.T) {
 		}
 		if k >= 2 && rng.Chance(15) { // a true multiset: the same record twice
 			recs[1] = recs[0]
+		}
+		if k >= 1 && rng.Chance(35) { // one RRset, one owner name — not the usual one
+			o := uint8(1 + rng.Intn(len(c13Owners)-1))
+			for j := range recs {
+				recs[j].owner = o
+			}
 		}
 		var ck string
 		if rng.Chance(70) {
@@ -872,7 +971,7 @@ func (w *c13World) checkCase(out *vh.Out, haveResolver bool, fut string, recs []
 	var rrs []dns.TLSA
 	for _, r := range recs {
 		toks = append(toks, w.recToken(r, ch))
-		rrs = append(rrs, w.tlsa(r, ch, "_25._tcp."+c13MXFQ))
+		rrs = append(rrs, w.tlsa(r, ch))
 	}
 	class := "ok"
 	var ferr error
@@ -966,6 +1065,12 @@ func TestVerifC13CheckConn(t *testing.T) {
 				recs = append(recs, c13RandRec(rng))
 			}
 		}
+		if k >= 1 && rng.Chance(35) {
+			o := uint8(1 + rng.Intn(len(c13Owners)-1))
+			for j := range recs {
+				recs[j].owner = o
+			}
+		}
 		ck := c13ChainKinds[rng.Intn(len(c13ChainKinds))]
 		hs := rng.Chance(80)
 		if !hs && rng.Chance(60) {
@@ -1007,7 +1112,7 @@ func (z c13Zone) code() string {
 		}
 		var p []string
 		for _, r := range rs {
-			p = append(p, fmt.Sprintf("%d.%d.%d.%s", r.usage, r.sel, r.mt, r.kind()))
+			p = append(p, fmt.Sprintf("%d.%d.%d.%s.o%d", r.usage, r.sel, r.mt, r.kind(), r.owner))
 		}
 		return strings.Join(p, ",")
 	}
@@ -1121,13 +1226,18 @@ func (w *c13World) script(z c13Zone, ch *c13Chain) map[string]c13Answer {
 	case "X":
 		delete(sc, cnameQ)
 	}
-	tlsa := func(k, owner string, recs []c13Rec) {
+	// the RRset asked for at qname; when it lives under another name (owner of its first record) the
+	// answer starts with the alias leading there
+	tlsa := func(k, qname string, recs []c13Rec) {
 		var rrs []miekgdns.RR
+		if len(recs) > 0 && !strings.EqualFold(c13Owners[recs[0].owner], qname) {
+			rrs = append(rrs, &miekgdns.CNAME{Hdr: hdr(qname, miekgdns.TypeCNAME), Target: c13Owners[recs[0].owner]})
+		}
 		for _, r := range recs {
-			rr := w.tlsa(r, ch, owner)
+			rr := w.tlsa(r, ch)
 			rrs = append(rrs, &rr)
 		}
-		key := c13QKey(owner, miekgdns.TypeTLSA)
+		key := c13QKey(qname, miekgdns.TypeTLSA)
 		switch k {
 		case "X":
 		case "F":
@@ -1163,12 +1273,12 @@ func (w *c13World) rrToken(rr dns.TLSA, ch *c13Chain) string {
 	if err != nil {
 		return "bad-hex"
 	}
-	return fmt.Sprintf("%d.%d.%d.x.%d", rr.Usage, rr.Selector, rr.MatchingType, c13Tag(rr.Selector, rr.MatchingType, data, ch))
+	return fmt.Sprintf("%d.%d.%d.x.%d.%d", rr.Usage, rr.Selector, rr.MatchingType, c13Tag(rr.Selector, rr.MatchingType, data, ch), c13OwnerIndex(rr.Hdr.Name))
 }
 
 func (w *c13World) rrKey(rr dns.TLSA, ch *c13Chain) string {
 	data, _ := hex.DecodeString(rr.Certificate)
-	return fmt.Sprintf("%d.%d.%d.%d", rr.Usage, rr.Selector, rr.MatchingType, c13Tag(rr.Selector, rr.MatchingType, data, ch))
+	return fmt.Sprintf("%d.%d.%d.%d.%d", rr.Usage, rr.Selector, rr.MatchingType, c13Tag(rr.Selector, rr.MatchingType, data, ch), c13OwnerIndex(rr.Hdr.Name))
 }
 
 func (w *c13World) ansToken(ad bool, recs []dns.TLSA, err error, ch *c13Chain) string {
@@ -1289,7 +1399,11 @@ type c13ZoneTruth struct {
 	incoherent   bool // the alias exists for address lookups but the CNAME-type query denies it
 }
 
-func c13ZoneTruthOf(z c13Zone) c13ZoneTruth {
+func c13ZoneTruthOf(z c13Zone) c13ZoneTruth { return c13ZoneTruthOfT(z, true) }
+
+// trusted: the answers come from a resolver on loopback. From any other resolver nothing is
+// DNSSEC-authenticated for us, whatever the zone is and whatever flags the answers carry.
+func c13ZoneTruthOfT(z c13Zone, trusted bool) c13ZoneTruth {
 	var t c13ZoneTruth
 	t.alias = z.c != "-"
 	final := z.a
@@ -1302,9 +1416,9 @@ func c13ZoneTruthOf(z c13Zone) c13ZoneTruth {
 	if !t.resolvable {
 		return t
 	}
-	finalSigned := final == "s" || final == "6"
+	finalSigned := trusted && (final == "s" || final == "6")
 	if t.alias {
-		aliasSigned := z.c[0] == 's'
+		aliasSigned := trusted && z.c[0] == 's'
 		if !(aliasSigned && finalSigned) {
 			// the chain is not signed end to end: the alias itself has to be looked up
 			switch z.q {
@@ -1384,7 +1498,7 @@ func (w *c13World) discCase(t *testing.T, out *vh.Out, z c13Zone) {
 		keys := func(rs []c13Rec) string {
 			var p []string
 			for _, r := range rs {
-				p = append(p, fmt.Sprintf("%d.%d.%d.%d", r.usage, r.sel, r.mt, c13Tag(r.sel, r.mt, w.data(r, ch), ch)))
+				p = append(p, fmt.Sprintf("%d.%d.%d.%d.%d", r.usage, r.sel, r.mt, c13Tag(r.sel, r.mt, w.data(r, ch), ch), r.owner))
 			}
 			return strings.Join(p, ",")
 		}
@@ -1458,11 +1572,26 @@ func (w *c13World) fillZoneRecs(rng *vh.Rng, z *c13Zone) {
 		}
 		return rs
 	}
+	// the owner name of the RRset: the name asked for, or (CNAME'd RRset) another one; now and then
+	// a stray record under yet another name in the same answer
+	own := func(rs []c13Rec, natural uint8) []c13Rec {
+		o := natural
+		if rng.Chance(40) {
+			o = uint8(rng.Intn(c13WireOwners))
+		}
+		for i := range rs {
+			rs[i].owner = o
+			if i > 0 && rng.Chance(8) {
+				rs[i].owner = uint8(rng.Intn(c13WireOwners))
+			}
+		}
+		return rs
+	}
 	if z.r == "s" || z.r == "i" {
-		z.recsR = gen()
+		z.recsR = own(gen(), 1)
 	}
 	if z.m == "s" || z.m == "i" {
-		z.recsM = gen()
+		z.recsM = own(gen(), 0)
 	}
 	z.f = c13FailRcodes[rng.Intn(len(c13FailRcodes))]
 }
@@ -1635,4 +1764,681 @@ func TestVerifC13Conn(t *testing.T) {
 		ck := c13ChainKinds[rng.Intn(len(c13ChainKinds)-1)]
 		w.connCase(t, out, z, ck, rng.Chance(90))
 	}
+}
+
+// ---------------------------------------------------------------- the resolver: framework/dns/dnssec.go
+//
+// ops `res` (the three lookups DANE discovery is built on, through the real ExtResolver.exchange)
+// and `rconn` (PrepareConn + CheckConn on top of them) against scripted DNS servers reachable
+//   L1  127.0.0.1  loopback          listener A
+//   N   0.0.0.0    NOT loopback      listener A (Linux delivers it to the local host)
+//   L2  127.0.0.2  loopback          listener B
+// each listening on UDP and TCP. A listener answers as a validating resolver would in the world a
+// zone code describes, bent by a personality (c13Pers). The model gets every message of every
+// configured server for the five questions discovery can ask, over both transports, and
+// isLoopback(server) as known by construction.
+
+// c13Pers: how a listener bends the answers of its zone.
+//
+//	base:  H as the zone says; A sets AD on every answer (a forger, or a resolver that does not
+//	       validate); U never sets AD but sets the AA and CD bits on every answer (an authoritative
+//	       server asked directly: nothing it says is validated); F fails every question (RCODE of
+//	       the zone); G answers garbage (no usable reply)
+//	trunc: - no truncation; e UDP answers have TC set and an empty answer section; p TC set and
+//	       only the first RR; f TC set although the answer is complete
+//	adp:   z AD as base says on both transports; u AD clear over UDP and set over TCP; b set on
+//	       both; n set over UDP, clear over TCP
+type c13Pers struct{ base, trunc, adp byte }
+
+func (p c13Pers) String() string { return string([]byte{p.base, p.trunc, p.adp}) }
+
+func c13ParsePers(s string) (c13Pers, error) {
+	if len(s) != 3 || !strings.ContainsRune("HAUFG", rune(s[0])) || !strings.ContainsRune("-epf", rune(s[1])) || !strings.ContainsRune("zubn", rune(s[2])) {
+		return c13Pers{}, fmt.Errorf("bad personality %q", s)
+	}
+	return c13Pers{s[0], s[1], s[2]}, nil
+}
+
+type c13Wire struct {
+	garbage bool
+	rcode   int
+	ad, tc  bool
+	aa      bool // AA and CD set: header bits that say nothing about DNSSEC validation
+	rrs     []miekgdns.RR
+}
+
+type c13QA struct{ udp, tcp c13Wire }
+
+func (p c13Pers) apply(ans c13Answer, ok bool, failRcode int) c13QA {
+	switch {
+	case p.base == 'G':
+		return c13QA{c13Wire{garbage: true}, c13Wire{garbage: true}}
+	case p.base == 'F':
+		return c13QA{c13Wire{rcode: failRcode}, c13Wire{rcode: failRcode}}
+	case !ok:
+		return c13QA{c13Wire{rcode: miekgdns.RcodeNameError}, c13Wire{rcode: miekgdns.RcodeNameError}}
+	case ans.rcode != 0:
+		return c13QA{c13Wire{rcode: ans.rcode}, c13Wire{rcode: ans.rcode}}
+	}
+	full := c13Wire{ad: ans.ad || p.base == 'A', aa: p.base == 'U' || p.base == 'A', rrs: ans.rrs}
+	qa := c13QA{full, full}
+	adp := p.adp
+	if p.base == 'U' {
+		qa.udp.ad, qa.tcp.ad, adp = false, false, 'z'
+	}
+	switch adp {
+	case 'u':
+		qa.udp.ad, qa.tcp.ad = false, true
+	case 'b':
+		qa.udp.ad, qa.tcp.ad = true, true
+	case 'n':
+		qa.udp.ad, qa.tcp.ad = true, false
+	}
+	switch p.trunc {
+	case 'e':
+		qa.udp.tc, qa.udp.rrs = true, nil
+	case 'p':
+		qa.udp.tc = true
+		if len(qa.udp.rrs) > 1 {
+			qa.udp.rrs = qa.udp.rrs[:1]
+		}
+	case 'f':
+		qa.udp.tc = true
+	}
+	return qa
+}
+
+// the five questions of discovery
+var c13Questions = []struct {
+	name  string
+	qtype uint16
+}{
+	{c13MXFQ, miekgdns.TypeA},
+	{c13MXFQ, miekgdns.TypeAAAA},
+	{c13MXFQ, miekgdns.TypeCNAME},
+	{"_25._tcp." + c13Canon, miekgdns.TypeTLSA},
+	{"_25._tcp." + c13MXFQ, miekgdns.TypeTLSA},
+}
+
+// c13Listener is one scripted DNS server, UDP and TCP on the same address and port.
+type c13Listener struct {
+	mu         sync.Mutex
+	pers       c13Pers
+	failRcode  int
+	script     map[string]c13Answer
+	udp, tcp   *miekgdns.Server
+	tcpQueries int
+}
+
+func (l *c13Listener) answer(name string, qtype uint16) c13QA {
+	l.mu.Lock()
+	defer l.mu.Unlock()
+	ans, ok := l.script[c13QKey(name, qtype)]
+	return l.pers.apply(ans, ok, l.failRcode)
+}
+
+func (l *c13Listener) ServeDNS(wr miekgdns.ResponseWriter, m *miekgdns.Msg) {
+	_, isUDP := wr.RemoteAddr().(*net.UDPAddr)
+	q := m.Question[0]
+	qa := l.answer(q.Name, q.Qtype)
+	wire := qa.udp
+	if !isUDP {
+		wire = qa.tcp
+		l.mu.Lock()
+		l.tcpQueries++
+		l.mu.Unlock()
+	}
+	if wire.garbage {
+		_, _ = wr.Write([]byte{0xde, 0xad, 0xbe})
+		return
+	}
+	reply := new(miekgdns.Msg)
+	reply.SetReply(m)
+	reply.RecursionAvailable = true
+	reply.Rcode = wire.rcode
+	reply.AuthenticatedData = wire.ad
+	reply.Truncated = wire.tc
+	reply.Authoritative, reply.CheckingDisabled = wire.aa, wire.aa
+	reply.Answer = wire.rrs
+	_ = wr.WriteMsg(reply)
+}
+
+func (l *c13Listener) set(p c13Pers, failRcode int, sc map[string]c13Answer) {
+	l.mu.Lock()
+	l.pers, l.failRcode, l.script = p, failRcode, sc
+	l.mu.Unlock()
+}
+
+type c13NetEnv struct {
+	a, b *c13Listener
+	port int
+	ext  *dns.ExtResolver
+}
+
+func (e *c13NetEnv) Close() {
+	for _, l := range []*c13Listener{e.a, e.b} {
+		_ = l.udp.Shutdown()
+		_ = l.tcp.Shutdown()
+	}
+}
+
+// the resolver addresses: what ExtResolver is configured with, which listener is behind, and
+// whether the address is a loopback address (ground truth, by construction)
+var c13Addrs = map[string]struct {
+	ip       string
+	listener byte
+	loopback bool
+}{
+	"L1": {"127.0.0.1", 'a', true},
+	"N":  {"0.0.0.0", 'a', false},
+	"L2": {"127.0.0.2", 'b', true},
+}
+
+func c13StartNet(t *testing.T) *c13NetEnv {
+	var lastErr error
+	for attempt := 0; attempt < 30; attempt++ {
+		var open []interface{ Close() error }
+		fail := func(err error) {
+			lastErr = err
+			for _, c := range open {
+				_ = c.Close()
+			}
+		}
+		tcpA, err := net.Listen("tcp4", "127.0.0.1:0")
+		if err != nil {
+			fail(err)
+			continue
+		}
+		open = append(open, tcpA)
+		port := tcpA.Addr().(*net.TCPAddr).Port
+		udpA, err := net.ListenPacket("udp4", fmt.Sprintf("127.0.0.1:%d", port))
+		if err != nil {
+			fail(err)
+			continue
+		}
+		open = append(open, udpA)
+		tcpB, err := net.Listen("tcp4", fmt.Sprintf("127.0.0.2:%d", port))
+		if err != nil {
+			fail(err)
+			continue
+		}
+		open = append(open, tcpB)
+		udpB, err := net.ListenPacket("udp4", fmt.Sprintf("127.0.0.2:%d", port))
+		if err != nil {
+			fail(err)
+			continue
+		}
+		e := &c13NetEnv{a: &c13Listener{}, b: &c13Listener{}, port: port}
+		var wg sync.WaitGroup
+		start := func(l *c13Listener, pc net.PacketConn, ln net.Listener) {
+			wg.Add(2)
+			l.udp = &miekgdns.Server{PacketConn: pc, Handler: l, NotifyStartedFunc: wg.Done}
+			l.tcp = &miekgdns.Server{Listener: ln, Handler: l, NotifyStartedFunc: wg.Done}
+			go func() { _ = l.udp.ActivateAndServe() }()
+			go func() { _ = l.tcp.ActivateAndServe() }()
+		}
+		start(e.a, udpA, tcpA)
+		start(e.b, udpB, tcpB)
+		done := make(chan struct{})
+		go func() { wg.Wait(); close(done) }()
+		select {
+		case <-done:
+		case <-time.After(30 * time.Second):
+			t.Fatal("c13: DNS servers did not start")
+		}
+		ext, err := dns.NewExtResolver()
+		if err != nil {
+			t.Fatal(err)
+		}
+		ext.Cfg.Port = strconv.Itoa(port)
+		e.ext = ext
+		return e
+	}
+	t.Fatalf("c13: cannot bind the DNS listeners (127.0.0.1 and 127.0.0.2, UDP+TCP, one port): %v", lastErr)
+	return nil
+}
+
+// c13Net is one resolver world.
+type c13Net struct {
+	zA, zB  c13Zone
+	pA, pB  c13Pers
+	servers []string // keys of c13Addrs, in the order of Cfg.Servers
+	ck      string
+	hs      bool
+}
+
+func (n c13Net) code() string {
+	return fmt.Sprintf("%s+%s+%s+%s+%s+%s", n.zA.code(), n.zB.code(), n.pA, n.pB, c13dash(strings.Join(n.servers, ",")), n.ck)
+}
+
+func c13ParseNet(code string) (c13Net, error) {
+	p := strings.Split(code, "+")
+	if len(p) != 6 {
+		return c13Net{}, fmt.Errorf("bad resolver world %q", code)
+	}
+	var n c13Net
+	var err error
+	if n.zA, err = c13ParseZone(p[0]); err != nil {
+		return n, err
+	}
+	if n.zB, err = c13ParseZone(p[1]); err != nil {
+		return n, err
+	}
+	if n.pA, err = c13ParsePers(p[2]); err != nil {
+		return n, err
+	}
+	if n.pB, err = c13ParsePers(p[3]); err != nil {
+		return n, err
+	}
+	if p[4] != "-" {
+		for _, s := range strings.Split(p[4], ",") {
+			if _, ok := c13Addrs[s]; !ok {
+				return n, fmt.Errorf("bad resolver address %q", s)
+			}
+			n.servers = append(n.servers, s)
+		}
+	}
+	n.ck = p[5]
+	return n, nil
+}
+
+func (w *c13World) wireToken(qi int, wire c13Wire, ch *c13Chain) string {
+	if wire.garbage {
+		return "x"
+	}
+	body := "-"
+	switch qi {
+	case 0, 1:
+		body = "E"
+		for _, rr := range wire.rrs {
+			if (qi == 0 && rr.Header().Rrtype == miekgdns.TypeA) || (qi == 1 && rr.Header().Rrtype == miekgdns.TypeAAAA) {
+				if rr.Header().Name == c13MXFQ {
+					body = "S"
+				} else {
+					body = "O"
+				}
+			}
+		}
+	case 3, 4:
+		var p []string
+		for _, rr := range wire.rrs {
+			if t, ok := rr.(*miekgdns.TLSA); ok {
+				p = append(p, w.rrToken(*t, ch))
+			}
+		}
+		body = c13dash(strings.Join(p, ","))
+	}
+	return fmt.Sprintf("%d:%s:%s:%s", wire.rcode, c13b(wire.ad), c13b(wire.tc), body)
+}
+
+// what one configured server is, for the model (token) and for the monitor
+type c13SrvTruth struct {
+	key      string
+	loopback bool
+	listener byte
+	pers     c13Pers
+	zone     c13Zone
+	q        [5]c13QA
+}
+
+func (w *c13World) srvToken(s c13SrvTruth, ch *c13Chain) string {
+	p := []string{c13b(s.loopback)}
+	for qi := range c13Questions {
+		p = append(p, w.wireToken(qi, s.q[qi].udp, ch)+"~"+w.wireToken(qi, s.q[qi].tcp, ch))
+	}
+	return strings.Join(p, "/")
+}
+
+func c13WireOK(wi c13Wire) bool { return !wi.garbage && wi.rcode == 0 }
+
+// does a loopback server of the list deliver, over either transport, a successful answer to one of
+// the questions qs with AD set and satisfying pred?
+func c13TrustedAnswer(srvs []c13SrvTruth, pred func(s c13SrvTruth, qi int) bool, qs ...int) bool {
+	for _, s := range srvs {
+		if !s.loopback {
+			continue
+		}
+		for _, qi := range qs {
+			for _, wi := range []c13Wire{s.q[qi].udp, s.q[qi].tcp} {
+				if c13WireOK(wi) && wi.ad && (pred == nil || pred(s, qi)) {
+					return true
+				}
+			}
+		}
+	}
+	return false
+}
+
+func (w *c13World) netCase(t *testing.T, out *vh.Out, env *c13NetEnv, n c13Net, doRes, doConn bool) {
+	ch := w.chains[n.ck]
+	env.a.set(n.pA, n.zA.f, w.script(n.zA, ch))
+	env.b.set(n.pB, n.zB.f, w.script(n.zB, ch))
+	var srvs []c13SrvTruth
+	var ips, toks []string
+	anyLoopback := false
+	for _, key := range n.servers {
+		a := c13Addrs[key]
+		st := c13SrvTruth{key: key, loopback: a.loopback, listener: a.listener, pers: n.pA, zone: n.zA}
+		l := env.a
+		if a.listener == 'b' {
+			l, st.pers, st.zone = env.b, n.pB, n.zB
+		}
+		for qi, q := range c13Questions {
+			st.q[qi] = l.answer(q.name, q.qtype)
+		}
+		srvs = append(srvs, st)
+		ips = append(ips, a.ip)
+		toks = append(toks, w.srvToken(st, ch))
+		anyLoopback = anyLoopback || a.loopback
+	}
+	ext := *env.ext
+	cfg := *env.ext.Cfg
+	cfg.Servers = ips
+	ext.Cfg = &cfg
+	ctx, cancel := context.WithTimeout(context.Background(), 30*time.Second)
+	defer cancel()
+	srvTok := strings.Join(toks, " ")
+	out.Stat("res/servers:" + c13dash(strings.Join(n.servers, ",")))
+	for _, s := range srvs {
+		out.Stat("res/personality:" + s.pers.String())
+	}
+
+	if doRes {
+		op := strings.TrimRight("C13 res z="+n.code()+" "+srvTok, " ")
+		obs, viol := w.resCalls(ctx, &ext, ch, srvs, anyLoopback)
+		out.Corr(op, obs)
+		for _, v := range viol {
+			out.Violation(v[0], op, v[1])
+		}
+		out.Stat("res/outcome:" + strings.Join(strings.Fields(obs)[:min(2, len(strings.Fields(obs)))], " "))
+	}
+	if !doConn || len(srvs) == 0 {
+		return
+	}
+
+	op := fmt.Sprintf("C13 rconn z=%s %s %s %s", n.code(), c13b(n.hs), ch.token(), srvTok)
+	dd := &daneDelivery{c: &danePolicy{extResolver: &ext, log: log.Logger{Name: "remote/dane"}}}
+	dd.PrepareConn(ctx, c13MX)
+	lvl, err, panicked := c13CallCheckConn(dd, w.connState(n.hs, ch))
+	obs := "panic"
+	if !panicked {
+		obs = "ret " + c13Level(lvl) + " " + c13ErrKind(err)
+	}
+	out.Corr(op, obs)
+	out.Stat("rconn/outcome:" + obs)
+	inSpace := len(ch.certs) > 0 || !n.hs
+	if panicked {
+		if inSpace {
+			out.Violation("C13/panic", op, "CheckConn panicked")
+		}
+		return
+	}
+	if !inSpace {
+		return
+	}
+
+	// ---- monitor 1 (every world): a DANE decision needs a TLSA answer a LOOPBACK server delivered
+	// with AD set — whatever the transport it came over
+	detail := fmt.Sprintf("level=%v err=%v servers=%v", lvl, err, n.servers)
+	kind := c13ErrKind(err)
+	matches := func(s c13SrvTruth, qi int) bool {
+		recs := s.zone.recsM
+		if qi == 3 {
+			recs = s.zone.recsR
+		}
+		return n.hs && w.truth(recs, ch).matched()
+	}
+	if lvl == module.TLSAuthenticated && !c13TrustedAnswer(srvs, matches, 3, 4) {
+		if c13TrustedAnswer(srvs, nil, 3, 4) {
+			out.Violation("C13/authenticated-without-match", op, detail)
+		} else {
+			out.Violation("C13/authenticated-on-unauthenticated-rrset", op, detail)
+		}
+	}
+	if kind == "tls" || kind == "nomatch" {
+		has := func(s c13SrvTruth, qi int) bool {
+			recs := s.zone.recsM
+			if qi == 3 {
+				recs = s.zone.recsR
+			}
+			if kind == "tls" {
+				return len(recs) > 0
+			}
+			return w.truth(recs, ch).anyUsable
+		}
+		if !c13TrustedAnswer(srvs, has, 3, 4) {
+			out.Violation("C13/refused-on-unauthenticated-rrset", op, detail)
+		}
+	}
+	if lvl != module.TLSNone && err != nil {
+		out.Violation("C13/conn-level-raised-with-error", op, detail)
+	}
+	if err != nil && kind != "temp" && kind != "tls" && kind != "nomatch" {
+		out.Violation("C13/lookup-error-not-temporary-refusal", op, detail)
+	}
+
+	// ---- monitor 2 (worlds where one server is the effective one for every question and what it
+	// delivers does not depend on the transport): the whole property, from the zone description
+	eff := -1
+	allFail := false
+	failing := func(s c13SrvTruth) bool { return s.pers.base == 'F' || s.pers.base == 'G' }
+	sameListener := true
+	for _, s := range srvs {
+		sameListener = sameListener && s.listener == srvs[0].listener
+	}
+	switch {
+	case sameListener && failing(srvs[0]):
+		allFail = true
+	case sameListener:
+		eff = 0
+	case failing(srvs[0]) && len(srvs) == 2 && failing(srvs[1]):
+		allFail = true
+	case failing(srvs[0]) && len(srvs) == 2:
+		eff = 1
+	}
+	if allFail {
+		out.Stat("rconn/monitor:all-servers-fail")
+		w.connMonitor(out, op, true, true, false, nil, ch, n.hs, lvl, err, false)
+		return
+	}
+	if eff < 0 {
+		out.Stat("rconn/monitor:soundness-only")
+		return
+	}
+	e := srvs[eff]
+	// nothing is authenticated: the server is not on loopback, or it never sets AD
+	trusted := e.loopback && e.pers.base != 'U'
+	if !((e.pers.base == 'H' || e.pers.base == 'A' || e.pers.base == 'U') && (e.pers.trunc == '-' || e.pers.trunc == 'f')) ||
+		(trusted && !(e.pers.base == 'H' && e.pers.adp == 'z')) {
+		out.Stat("rconn/monitor:soundness-only")
+		return
+	}
+	out.Stat("rconn/monitor:whole-property/trusted:" + c13b(trusted))
+	zt := c13ZoneTruthOfT(e.zone, trusted)
+	lookupFailed := zt.addrFails || zt.lookupFails
+	var recs []c13Rec
+	haveRecs := false
+	if !lookupFailed && zt.hostSecure {
+		switch {
+		case zt.secureR:
+			recs, haveRecs = e.zone.recsR, true
+		case e.zone.m == "s":
+			recs, haveRecs = e.zone.recsM, true
+		}
+	}
+	if !zt.incoherent {
+		w.connMonitor(out, op, true, lookupFailed, haveRecs, recs, ch, n.hs, lvl, err, false)
+	}
+}
+
+// the three lookups, through the real ExtResolver; monitor: an AD flag is reported only when a
+// loopback server delivered the answer with AD set
+func (w *c13World) resCalls(ctx context.Context, ext *dns.ExtResolver, ch *c13Chain, srvs []c13SrvTruth, anyLoopback bool) (obs string, viol [][2]string) {
+	defer func() {
+		if r := recover(); r != nil {
+			obs = "panic"
+		}
+	}()
+	flag := func(what string, ad bool, qs ...int) {
+		if !ad || c13TrustedAnswer(srvs, nil, qs...) {
+			return
+		}
+		sig := "C13/ad-reported-without-trusted-ad"
+		if !anyLoopback {
+			sig = "C13/ad-trusted-from-non-loopback-resolver"
+		}
+		viol = append(viol, [2]string{sig, what + " reports ad=true"})
+	}
+	var ck, cn string
+	adA, rn, err := ext.CheckCNAMEAD(ctx, c13MXFQ)
+	switch {
+	case err != nil:
+		ck = "e:" + c13LErr(err)
+	case rn == "":
+		ck = "ok:" + c13b(adA) + ":E"
+	case rn == c13MXFQ:
+		ck = "ok:" + c13b(adA) + ":S"
+	default:
+		ck = "ok:" + c13b(adA) + ":O"
+	}
+	flag("CheckCNAMEAD", err == nil && adA, 0, 1)
+	cad, _, err := ext.AuthLookupCNAME(ctx, c13MXFQ)
+	if err != nil {
+		cn = "e:" + c13LErr(err)
+	} else {
+		cn = "ok:" + c13b(cad)
+	}
+	flag("AuthLookupCNAME", err == nil && cad, 2)
+	keyTok := func(ad bool, recs []dns.TLSA, err error) string {
+		e := "-"
+		if err != nil {
+			e = c13LErr(err)
+		}
+		var p []string
+		for _, rr := range recs {
+			p = append(p, w.rrKey(rr, ch))
+		}
+		return e + ":" + c13b(ad) + ":" + c13dash(strings.Join(p, ","))
+	}
+	ad, recs, err := ext.AuthLookupTLSA(ctx, "25", "tcp", c13Canon)
+	tr := keyTok(ad, recs, err)
+	flag("AuthLookupTLSA(canonical name)", ad, 3)
+	ad, recs, err = ext.AuthLookupTLSA(ctx, "25", "tcp", c13MXFQ)
+	tm := keyTok(ad, recs, err)
+	flag("AuthLookupTLSA(MX name)", ad, 4)
+	return ck + " " + cn + " " + tr + " " + tm, viol
+}
+
+var (
+	c13PersHonest  = []string{"H-z", "H-z", "Hfz", "Hez", "Hpz", "U-z", "Ufz"}
+	c13PersForging = []string{"A-b", "Aeb", "Afb", "Apb", "Heu", "Hfu", "Hpu", "Aeu", "Afu", "H-u", "H-b", "Hen", "Afn", "Hez", "Hfz"}
+	c13PersFailing = []string{"F-z", "G-z"}
+	c13ServerLists = [][]string{{"L1"}, {"N"}, {"L2"}, {"N"}, {"N", "L2"}, {"L2", "N"}, {"L1", "L2"}, {"N", "L1"}, {"L2", "L1"}, {"N", "N"}}
+)
+
+func TestVerifC13Resolver(t *testing.T) {
+	out := vh.Open("c13_res")
+	defer out.Close()
+	w := c13NewWorld(t)
+	env := c13StartNet(t)
+	defer env.Close()
+
+	if rp := vh.Replay(); rp != nil {
+		for _, op := range rp {
+			isRes, isConn := strings.HasPrefix(op, "C13 res "), strings.HasPrefix(op, "C13 rconn ")
+			if !isRes && !isConn {
+				continue
+			}
+			toks := strings.Fields(op)
+			n, err := c13ParseNet(strings.TrimPrefix(toks[2], "z="))
+			if err != nil || w.chains[n.ck] == nil {
+				t.Fatalf("cannot replay %q: %v", op, err)
+			}
+			if isConn {
+				n.hs = toks[3] == "1"
+			}
+			w.netCase(t, out, env, n, isRes, isConn)
+		}
+		return
+	}
+	rng := vh.NewRng(vh.Seed() + 1304).Fork()
+	all := c13AllZones()
+	good := c13GoodZones(all)
+	pers := func(list []string) c13Pers {
+		p, err := c13ParsePers(list[rng.Intn(len(list))])
+		if err != nil {
+			t.Fatal(err)
+		}
+		return p
+	}
+	zone := func(pool []c13Zone) c13Zone {
+		z := pool[rng.Intn(len(pool))]
+		w.fillZoneRecs(rng, &z)
+		return z
+	}
+	chain := func() (string, bool) {
+		ck := c13ChainKinds[rng.Intn(len(c13ChainKinds)-1)]
+		hs := rng.Chance(90)
+		if !hs && rng.Chance(50) {
+			ck = "E"
+		}
+		return ck, hs
+	}
+
+	// (0) no server configured: every lookup dereferences a nil response
+	w.netCase(t, out, env, c13Net{zA: zone(good), zB: zone(good), pA: pers(c13PersHonest), pB: pers(c13PersHonest), ck: "LIR", hs: true}, true, false)
+
+	// (1) one server, answers that do not depend on the transport — every zone shape in turn behind
+	// the non-loopback address (half of them with AD forged on), the loopback ones on the zones
+	// where records are found: the whole property, from the zone description
+	reps := 1
+	if vh.Thorough() {
+		reps = 4
+	}
+	for rep := 0; rep < reps; rep++ {
+		for i, z := range all {
+			if !vh.Thorough() && (i+int(vh.Seed()))%3 != 0 {
+				continue
+			}
+			w.fillZoneRecs(rng, &z)
+			ck, hs := chain()
+			n := c13Net{zA: z, zB: zone(good), pA: pers([]string{"H-z", "A-b", "Hfu", "Afb"}), pB: pers(c13PersHonest), servers: []string{"N"}, ck: ck, hs: hs}
+			w.netCase(t, out, env, n, true, true)
+		}
+		for _, z := range good {
+			w.fillZoneRecs(rng, &z)
+			ck, hs := chain()
+			key := []string{"L1", "L2"}[rng.Intn(2)]
+			n := c13Net{zA: z, zB: z, pA: pers([]string{"H-z", "Hfz", "H-z", "U-z"}), servers: []string{key}, ck: ck, hs: hs}
+			n.pB = n.pA
+			w.netCase(t, out, env, n, true, true)
+		}
+	}
+
+	// (2) sampled worlds: server lists mixing the addresses, failing servers in front, forged AD
+	// flags, truncated UDP answers with a differing TCP follow-up
+	cnt := vh.N(4000) / 10
+	for i := 0; i < cnt; i++ {
+		pool := good
+		if rng.Chance(25) {
+			pool = all
+		}
+		n := c13Net{zA: zone(pool), zB: zone(good), servers: c13ServerLists[rng.Intn(len(c13ServerLists))]}
+		n.ck, n.hs = chain()
+		pick := func(first bool) c13Pers {
+			switch {
+			case first && len(n.servers) > 1 && rng.Chance(45):
+				return pers(c13PersFailing)
+			case rng.Chance(8):
+				return pers(c13PersFailing)
+			case rng.Chance(45):
+				return pers(c13PersHonest)
+			}
+			return pers(c13PersForging)
+		}
+		firstIsA := c13Addrs[n.servers[0]].listener == 'a'
+		n.pA, n.pB = pick(firstIsA), pick(!firstIsA)
+		w.netCase(t, out, env, n, true, true)
+	}
+	out.Note(fmt.Sprintf("resolver: TCP queries received by the listeners: %d", env.a.tcpQueries+env.b.tcpQueries))
 }
